@@ -18,6 +18,7 @@ import (
 	"net/http/httptest"
 	"net/url"
 	"os"
+	"runtime"
 	"strconv"
 	"strings"
 	"sync"
@@ -74,8 +75,29 @@ var (
 type script struct {
 	mu    sync.Mutex
 	o     outcome
+	byID  map[uint16]outcome
 	calls atomic.Int64
 	adv   *advDisposer
+}
+
+// nestedSuffix marks the queries of the concurrent client that the buffer
+// adversary sends while another request is in flight.
+const nestedSuffix = "concurrent-client.example."
+
+// nest, when set, is called at every point where the server calls back into the
+// harness while a request is in flight (handler, socket write); it serves a
+// complete request of another client on the same server.  nestDepth prevents
+// the nested request from nesting again.
+var (
+	nest      func(point string)
+	nestDepth atomic.Int32
+)
+
+func callNest(point string) {
+	if f := nest; f != nil && nestDepth.CompareAndSwap(0, 1) {
+		f(point)
+		nestDepth.Store(0)
+	}
 }
 
 func (s *script) set(o outcome) {
@@ -293,10 +315,18 @@ func (d *advDisposer) settle() (disposes int, damaged string) {
 }
 
 func (s *script) ServeDNS(ctx context.Context, rw dnsserver.ResponseWriter, req *dns.Msg) (err error) {
+	if len(req.Question) == 1 && strings.HasSuffix(req.Question[0].Name, nestedSuffix) {
+		// The concurrent client's query: always answered, never counted.
+		return rw.WriteMsg(ctx, req, s.adv.clone(pipelineResp(req, 0, 2)))
+	}
 	s.calls.Add(1)
 	s.mu.Lock()
 	o := s.o
+	if bo, ok := s.byID[req.Id]; ok {
+		o = bo
+	}
 	s.mu.Unlock()
+	callNest("handler")
 	mk := func() *dns.Msg {
 		resp := pipelineResp(req, o.rcode, o.n)
 		if req.Id%4 == 3 {
@@ -340,10 +370,15 @@ var (
 )
 
 type fakePacketConn struct {
-	in     []byte
-	read   bool
-	wok    bool
-	writes [][]byte
+	in      []byte
+	readErr error
+	read    bool
+	wok     bool
+	writes  [][]byte
+	// buf is the first octet of the buffer the server read the datagram into.
+	buf *byte
+	// wrote is closed (if not nil) after the first write attempt.
+	wrote chan struct{}
 }
 
 func (c *fakePacketConn) ReadFrom(p []byte) (n int, addr net.Addr, err error) {
@@ -351,11 +386,21 @@ func (c *fakePacketConn) ReadFrom(p []byte) (n int, addr net.Addr, err error) {
 		return 0, nil, io.EOF
 	}
 	c.read = true
+	if c.readErr != nil {
+		return 0, nil, c.readErr
+	}
+	if len(p) > 0 {
+		c.buf = &p[0]
+	}
 
 	return copy(p, c.in), rUDP, nil
 }
 
 func (c *fakePacketConn) WriteTo(p []byte, _ net.Addr) (n int, err error) {
+	callNest("write")
+	if c.wrote != nil {
+		defer close(c.wrote)
+	}
 	if !c.wok {
 		return 0, io.ErrClosedPipe
 	}
@@ -375,18 +420,78 @@ type fakeConn struct {
 	wok    bool
 	out    bytes.Buffer
 	closes int
+	// buf is the first octet of the buffer the server read a message body into.
+	buf *byte
+	// Sequential mode (frames != nil): the client sends frame k+1 only after
+	// frame k is settled (answered, or the server closed the connection), and a
+	// closed connection fails reads and writes like a real one.
+	frames  [][]byte
+	next    int
+	cur     *bytes.Reader
+	settled int
+	events  []connEvent
+	cond    *sync.Cond
+}
+
+// connEvent is one thing the server did on a sequential connection: a write
+// (msg) or closing it (msg == nil).
+type connEvent struct {
+	msg []byte
+}
+
+func newSeqConn(frames [][]byte) (c *fakeConn) {
+	c = &fakeConn{frames: frames, wok: true, in: bytes.NewReader(nil)}
+	c.cond = sync.NewCond(&c.mu)
+
+	return c
 }
 
 func (c *fakeConn) Read(p []byte) (n int, err error) {
 	c.mu.Lock()
 	defer c.mu.Unlock()
+	if c.frames != nil {
+		return c.readSeq(p)
+	}
+	if len(p) > 2 {
+		c.buf = &p[0]
+	}
 
 	return c.in.Read(p)
 }
 
+// readSeq is Read in sequential mode; c.mu is held.
+func (c *fakeConn) readSeq(p []byte) (n int, err error) {
+	if c.cur == nil || c.cur.Len() == 0 {
+		for c.settled < c.next && c.closes == 0 {
+			c.cond.Wait()
+		}
+		if c.closes > 0 {
+			return 0, net.ErrClosed
+		}
+		if c.next >= len(c.frames) {
+			return 0, io.EOF
+		}
+		c.cur = bytes.NewReader(c.frames[c.next])
+		c.next++
+	}
+
+	return c.cur.Read(p)
+}
+
 func (c *fakeConn) Write(p []byte) (n int, err error) {
+	callNest("write")
 	c.mu.Lock()
 	defer c.mu.Unlock()
+	if c.frames != nil {
+		if c.closes > 0 {
+			return 0, net.ErrClosed
+		}
+		c.events = append(c.events, connEvent{msg: bytes.Clone(p)})
+		c.settled++
+		c.cond.Broadcast()
+
+		return len(p), nil
+	}
 	if !c.wok {
 		return 0, io.ErrClosedPipe
 	}
@@ -398,6 +503,14 @@ func (c *fakeConn) Close() error {
 	c.mu.Lock()
 	defer c.mu.Unlock()
 	c.closes++
+	if c.frames != nil && c.closes == 1 && c.settled < c.next {
+		// Closed by the server instead of an answer to the frame in flight.
+		c.events = append(c.events, connEvent{})
+		c.settled++
+	}
+	if c.cond != nil {
+		c.cond.Broadcast()
+	}
 
 	return nil
 }
@@ -414,16 +527,20 @@ type fakeStream struct {
 	closed bool
 }
 
-func (s *fakeStream) Read(p []byte) (int, error)        { return s.in.Read(p) }
-func (s *fakeStream) Write(p []byte) (int, error)       { return s.out.Write(p) }
-func (s *fakeStream) Close() error                      { s.closed = true; return nil }
-func (s *fakeStream) SetReadDeadline(time.Time) error   { return nil }
-func (s *fakeStream) SetWriteDeadline(time.Time) error  { return nil }
-func (s *fakeStream) SetDeadline(time.Time) error       { return nil }
-func (s *fakeStream) StreamID() quic.StreamID           { return 0 }
-func (s *fakeStream) CancelRead(quic.StreamErrorCode)   {}
-func (s *fakeStream) CancelWrite(quic.StreamErrorCode)  {}
-func (s *fakeStream) Context() context.Context          { return context.Background() }
+func (s *fakeStream) Read(p []byte) (int, error) { return s.in.Read(p) }
+func (s *fakeStream) Write(p []byte) (int, error) {
+	callNest("write")
+
+	return s.out.Write(p)
+}
+func (s *fakeStream) Close() error                     { s.closed = true; return nil }
+func (s *fakeStream) SetReadDeadline(time.Time) error  { return nil }
+func (s *fakeStream) SetWriteDeadline(time.Time) error { return nil }
+func (s *fakeStream) SetDeadline(time.Time) error      { return nil }
+func (s *fakeStream) StreamID() quic.StreamID          { return 0 }
+func (s *fakeStream) CancelRead(quic.StreamErrorCode)  {}
+func (s *fakeStream) CancelWrite(quic.StreamErrorCode) {}
+func (s *fakeStream) Context() context.Context         { return context.Background() }
 
 type fakeQUICConn struct {
 	quic.Connection
@@ -549,6 +666,11 @@ type sees struct {
 	// damaged is non-empty if a concurrent request's response was changed.
 	disposes int
 	damaged  string
+	// fin: DoQ only, the server closed its side of the stream.
+	fin bool
+	// acceptErr: UDP only, the error the accept step returned to the listener
+	// loop, which ends the loop.
+	acceptErr error
 }
 
 const (
@@ -647,7 +769,7 @@ func (e *env) runInner(t string, b []byte, req *dns.Msg, wok bool) (s sees) {
 	switch t {
 	case "udp":
 		c := &fakePacketConn{in: b, wok: wok}
-		_ = e.plain.VerifC01AcceptUDP(ctx, c)
+		s.acceptErr = e.plain.VerifC01AcceptUDP(ctx, c)
 		s.status = stNone
 		unpackAll(c.writes, &s)
 	case "tcp", "dot":
@@ -694,6 +816,7 @@ func (e *env) runInner(t string, b []byte, req *dns.Msg, wok bool) (s sees) {
 				s.status = stProtoErr
 			}
 		}
+		s.fin = st.closed
 		splitPrefixed(st.out.Bytes(), &s)
 	case "dcudp", "dctcp":
 		w := &fakeDCW{tcp: t == "dctcp"}
@@ -711,6 +834,15 @@ func (e *env) runInner(t string, b []byte, req *dns.Msg, wok bool) (s sees) {
 // ---------------------------------------------------------------------------
 // Canonical forms
 
+// tokNum is the value of a numeric parameter token, def for "-".
+func tokNum(tok string, def int) int {
+	if v, err := strconv.Atoi(tok); err == nil {
+		return v
+	}
+
+	return def
+}
+
 func b2s(b bool) string {
 	if b {
 		return "1"
@@ -719,12 +851,94 @@ func b2s(b bool) string {
 	return "0"
 }
 
+// hexName renders a domain name in presentation format as the hex of its wire
+// form (labels with length octets, root included), which is how the model names
+// a question.  Names that do not pack are rendered as "21" + hex of the text.
 func hexName(s string) string {
 	if s == "" {
 		return "00"
 	}
+	buf := make([]byte, 300)
+	off, err := dns.PackDomainName(s, buf, 0, nil, false)
+	if err != nil {
+		return "21" + hex.EncodeToString([]byte(s))
+	}
 
-	return hex.EncodeToString([]byte(s))
+	return hex.EncodeToString(buf[:off])
+}
+
+// goQParse is the harness's own reading of the first question of the bytes
+// handed to Unpack: "-" (no question announced or bare header), "ptr"
+// (compressed name), "bad" (does not parse) or "ok:<wire name hex>:<type>:<class>".
+func goQParse(ub []byte) string {
+	if len(ub) <= 12 || binary.BigEndian.Uint16(ub[4:]) == 0 {
+		return "-"
+	}
+	off, budget := 12, 255
+	var name []byte
+	for {
+		if off >= len(ub) {
+			return "bad"
+		}
+		c := int(ub[off])
+		off++
+		if c == 0 {
+			name = append(name, 0)
+
+			break
+		}
+		if c >= 192 {
+			return "ptr"
+		}
+		if c >= 64 || off+c > len(ub) {
+			return "bad"
+		}
+		budget -= c + 1
+		if budget <= 0 {
+			return "bad"
+		}
+		name = append(name, byte(c))
+		name = append(name, ub[off:off+c]...)
+		off += c
+	}
+	rest := ub[off:]
+	qt, qc := 0, 0
+	switch {
+	case len(rest) == 1:
+		return "bad"
+	case len(rest) >= 4:
+		qc = int(binary.BigEndian.Uint16(rest[2:]))
+
+		fallthrough
+	case len(rest) >= 2:
+		qt = int(binary.BigEndian.Uint16(rest))
+	}
+
+	return fmt.Sprintf("ok:%s:%d:%d", hex.EncodeToString(name), qt, qc)
+}
+
+// checkUnpackContract compares the harness's reading of the header and the
+// first question with what miekg's Unpack returned for the same bytes: this is
+// the contract (UnpackOK) under which the wire-level theorems hold.
+func checkUnpackContract(r *hlib.Result, ub []byte, req *dns.Msg) {
+	qp := goQParse(ub)
+	bad := ""
+	switch {
+	case qp == "bad" && req != nil:
+		bad = "Unpack accepted a message whose first question does not parse"
+	case req == nil:
+	case qp == "-" && len(ub) >= 12 && len(req.Question) != 0:
+		bad = "Unpack found a question where none is announced"
+	case strings.HasPrefix(qp, "ok:"):
+		if len(req.Question) == 0 {
+			bad = "Unpack dropped the first question"
+		} else if q := req.Question[0]; qp != fmt.Sprintf("ok:%s:%d:%d", hexName(q.Name), q.Qtype, q.Qclass) {
+			bad = fmt.Sprintf("Unpack read the first question as %s %d %d", hexName(q.Name), q.Qtype, q.Qclass)
+		}
+	}
+	if bad != "" {
+		r.Disagree("unpack-contract", bad+"; the bytes say "+qp, map[string]string{"wire_hex": hex.EncodeToString(ub)})
+	}
 }
 
 func findEDE(m *dns.Msg) string {
@@ -759,7 +973,17 @@ func canonSees(s sees, hid string) string {
 		parts = append(parts, canonResp(m))
 	}
 
-	return fmt.Sprintf("%d %s %d ", s.status, hid, len(s.msgs)) + strings.Join(parts, " ") + fmt.Sprintf(" d%d", s.disposes)
+	return fmt.Sprintf("%d %s %d ", s.status, hid, len(s.msgs)) + strings.Join(parts, " ") + fmt.Sprintf(" d%d f%s", s.disposes, b2s(s.fin))
+}
+
+// canonShort renders one element of a connection / loop observation.
+func canonShort(s sees) string {
+	parts := make([]string, 0, len(s.msgs))
+	for _, m := range s.msgs {
+		parts = append(parts, canonResp(m))
+	}
+
+	return fmt.Sprintf("/ %d %d ", s.status, len(s.msgs)) + strings.Join(parts, " ")
 }
 
 func hdrID(b []byte) string {
@@ -785,17 +1009,18 @@ func hasKeepalive(m *dns.Msg) bool {
 	return false
 }
 
-// modelLine renders the op line for the model.
-func modelLine(t string, wok bool, b []byte, req *dns.Msg, o outcome) string {
-	hdr := "-"
-	if len(b) >= 12 {
-		hdr = hex.EncodeToString(b[:12])
+// frameArgs renders "<wirehex> <unpacked> <fields…> <outcome> q <nq> {…}": the
+// client's bytes, and what Unpack made of the bytes the transport handed it.
+func frameArgs(b []byte, req *dns.Msg, o outcome) string {
+	wire := "-"
+	if len(b) > 0 {
+		wire = hex.EncodeToString(b)
 	}
 	if req == nil {
-		return fmt.Sprintf("serve %s %s %s 0 0 0 0 0 0 0 0 0 0 %s q 0", t, b2s(wok), hdr, o)
+		return fmt.Sprintf("%s 0 0 0 0 0 0 0 0 0 0 %s q 0", wire, o)
 	}
 	var sb strings.Builder
-	fmt.Fprintf(&sb, "serve %s %s %s 1 %d %s %d %s %s %d %d %s %s %s q %d", t, b2s(wok), hdr, req.Id,
+	fmt.Fprintf(&sb, "%s 1 %d %s %d %s %s %d %d %s %s %s q %d", wire, req.Id,
 		b2s(req.Response), req.Opcode, b2s(req.RecursionDesired), b2s(req.CheckingDisabled),
 		len(req.Answer), len(req.Ns), b2s(req.IsEdns0() != nil), b2s(hasKeepalive(req)), o, len(req.Question))
 	for _, q := range req.Question {
@@ -803,6 +1028,11 @@ func modelLine(t string, wok bool, b []byte, req *dns.Msg, o outcome) string {
 	}
 
 	return sb.String()
+}
+
+// modelLine renders the op line for the model.
+func modelLine(t string, wok bool, b []byte, req *dns.Msg, o outcome) string {
+	return fmt.Sprintf("serve %s %s %s", t, b2s(wok), frameArgs(b, req, o))
 }
 
 // ---------------------------------------------------------------------------
@@ -1059,6 +1289,12 @@ func oracle(r *hlib.Result, t string, b []byte, req *dns.Msg, o outcome, wok boo
 
 		return ""
 	}
+	if s.acceptErr != nil {
+		r.Violate("listener-exit-"+t, fmt.Sprintf("%s: the accept step returned the error %q for this client input; the listener loop ends on any error, so the listener is gone", t, s.acceptErr), ci)
+	}
+	if t == "doq" && !s.fin {
+		r.Violate("doq-stream-not-finished", "doq: the server did not close its side of the stream (no STREAM FIN), so the client cannot tell that the response is complete", ci)
+	}
 	if s.garbage > 0 {
 		r.Violate("garbled-response-"+t, t+": the server wrote bytes that do not decode as a DNS message / frame", ci)
 	}
@@ -1233,11 +1469,16 @@ func runCase(e *env, r *hlib.Result, b []byte, kind string, o outcome, wokRoll i
 	}
 	cores := map[string]string{}
 	canon := hex.EncodeToString(b) + " " + o.String()
+	checkUnpackContract(r, b, req)
 	for _, t := range transports {
+		// eb: the bytes the transport's framing hands to Unpack.
 		eb := effective(t, b)
 		treq := req
 		if len(eb) != len(b) {
 			treq = unpackOrNil(eb)
+		}
+		if len(eb) != len(b) {
+			checkUnpackContract(r, eb, treq)
 		}
 		if t == "udp" && len(eb) < 12 {
 			// readUDPMsg drops datagrams shorter than a header before Unpack.
@@ -1249,7 +1490,7 @@ func runCase(e *env, r *hlib.Result, b []byte, kind string, o outcome, wokRoll i
 			r.Count("socket-write-fails")
 		}
 		e.h.set(o)
-		s := e.run(t, eb, treq, wok)
+		s := e.run(t, b, treq, wok)
 		calls := e.h.calls.Load()
 		// Property oracle first, model comparison afterwards.
 		core := oracle(r, t, eb, treq, o, wok, s, calls)
@@ -1264,9 +1505,14 @@ func runCase(e *env, r *hlib.Result, b []byte, kind string, o outcome, wokRoll i
 		if (t == "dcudp" || t == "dctcp") && treq == nil {
 			continue
 		}
-		real := canonSees(s, hdrID(eb))
-		ci := caseInfo{Transport: t, WireHex: hex.EncodeToString(eb), Outcome: o.String(), WriteOK: wok, Observed: real}
-		*ps = append(*ps, pending{line: modelLine(t, wok, eb, treq, mo), real: real, ci: ci})
+		ub := eb
+		if (t == "udp" || t == "doq") && len(eb) < 12 {
+			// Dropped by the framing: nothing is handed to Unpack.
+			ub = nil
+		}
+		real := fmt.Sprintf("%d %s %s w1 ", s.status, hdrID(ub), goQParse(ub)) + strings.SplitN(canonSees(s, "-"), " ", 3)[2]
+		ci := caseInfo{Transport: t, WireHex: hex.EncodeToString(b), Outcome: o.String(), WriteOK: wok, Observed: real}
+		*ps = append(*ps, pending{line: modelLine(t, wok, b, treq, mo), real: real, ci: ci})
 		r.Traces++
 	}
 	// Cross-transport identity of the delivered core.
@@ -1473,6 +1719,11 @@ func jsonCampaign(o *hlib.Opts, r *hlib.Result, m *hlib.Model, e *env) {
 		add("cd", cd)
 		add("do", do)
 		add("sde", sde)
+		// One request in four asks for the answer in wire format.
+		ct := rng.IntN(4) == 0
+		if ct {
+			q.Set("ct", dnsserver.MimeTypeDoH)
+		}
 		req := httptest.NewRequest(http.MethodGet, "https://dns.example/resolve?"+q.Encode(), nil)
 		req.RemoteAddr = "192.0.2.99:40000"
 		w := httptest.NewRecorder()
@@ -1529,11 +1780,32 @@ func jsonCampaign(o *hlib.Opts, r *hlib.Result, m *hlib.Model, e *env) {
 			}
 		}
 		tTok, cTok, cdTok, doTok, sdeTok := num(typ, dns.StringToType), num(qc, dns.StringToClass), bl(cd), bl(do), bl(sde)
-		line := fmt.Sprintf("json 7 %s %s %s %s %s %s %s %s", b2s(nameBad), hexName(fq), tTok, cTok, cdTok, doTok, sdeTok, oc)
 		var jm dnsserver.JSONMsg
 		real := ""
 		bad := nameBad || tTok == "bad" || cTok == "bad" || cdTok == "bad" || doTok == "bad" || sdeTok == "bad"
-		if w.Code == http.StatusOK {
+		id := 7
+		if ct && w.Code == http.StatusOK {
+			// Wire-format answer: bring it into the shape of the JSON members, so
+			// that the oracle below applies to both encodings.
+			wm := unpackOrNil(w.Body.Bytes())
+			if wm == nil {
+				r.Violate("garbled-response-dohjson", "JSON API with ct=application/dns-message returned a body that is not a DNS message", ci)
+
+				continue
+			}
+			// The server invents the id of a JSON API query.
+			id = int(wm.Id)
+			jm = *dnsserver.DNSMsgToJSONMsg(wm)
+			if len(wm.Question) == 1 && int(wm.Question[0].Qclass) != tokNum(cTok, 1) {
+				r.Violate("json-answer-differs", fmt.Sprintf("JSON API (wire answer): question class %d, asked %s", wm.Question[0].Qclass, cTok), ci)
+			}
+			real = "200 1 " + canonResp(wm)
+			r.Count("json:wire-answer")
+		}
+		line := fmt.Sprintf("json %s %d %s %s %s %s %s %s %s %s", b2s(ct), id, b2s(nameBad), hexName(fq), tTok, cTok, cdTok, doTok, sdeTok, oc)
+		if real != "" {
+			// Rendered above.
+		} else if w.Code == http.StatusOK {
 			if err := json.Unmarshal(w.Body.Bytes(), &jm); err != nil {
 				r.Violate("garbled-response-dohjson", "JSON API returned a body that is not a JSONMsg: "+err.Error(), ci)
 
@@ -1831,6 +2103,389 @@ func truncationCampaign(o *hlib.Opts, r *hlib.Result, e *env) {
 	}
 }
 
+// udpLoopCampaign replays the UDP listener loop (`for started { err = acceptUDPMsg(); if err != nil { return } }`)
+// over sequences of socket read results: datagrams (also shorter than a header,
+// undecodable, rejected), timeouts and - to see the loop end when it should -
+// critical read errors.  No client input may end the loop.
+func udpLoopCampaign(o *hlib.Opts, r *hlib.Result, m *hlib.Model, e *env) {
+	rng := o.Rand("udploop")
+	n := 400
+	if o.Thorough() {
+		n = 30000
+	}
+	type item struct {
+		kind string // dgram | soft | crit
+		b    []byte
+		oc   outcome
+	}
+	var lines, reals []string
+	var cis []any
+	ctx := context.Background()
+	dummy := hlib.NewResult("C01", o)
+	for i := 0; i < n; i++ {
+		var items []item
+		for k := 1 + rng.IntN(6); k > 0; k-- {
+			switch x := rng.IntN(16); {
+			case x == 0:
+				items = append(items, item{kind: "crit"})
+			case x < 3:
+				items = append(items, item{kind: "soft"})
+			default:
+				b, _ := genWire(rng, dummy)
+				if rng.IntN(3) == 0 {
+					b = b[:min(len(b), rng.IntN(13))]
+				}
+				oc := genOutcome(rng)
+				if oc.kind == "wrotefailed" {
+					oc = outcome{kind: "silent"}
+				}
+				items = append(items, item{kind: "dgram", b: b, oc: oc})
+			}
+		}
+		var sb, rb strings.Builder
+		sb.WriteString("udploop 1 1")
+		alive, served, critSeen := true, 0, false
+		var replay []string
+		for _, it := range items {
+			switch it.kind {
+			case "crit", "soft":
+				sb.WriteString(" ; " + it.kind)
+				replay = append(replay, it.kind)
+			default:
+				eb := effective("udp", it.b)
+				treq := unpackOrNil(eb)
+				if len(eb) < 12 {
+					treq = nil
+				}
+				sb.WriteString(" ; " + frameArgs(it.b, treq, it.oc))
+				replay = append(replay, hex.EncodeToString(it.b)+" "+it.oc.String())
+			}
+			if !alive {
+				continue
+			}
+			c := &fakePacketConn{in: it.b, wok: true}
+			switch it.kind {
+			case "crit":
+				c.readErr = io.ErrClosedPipe
+				critSeen = true
+			case "soft":
+				c.readErr = timeoutErr{}
+			}
+			e.h.set(it.oc)
+			e.h.adv.begin()
+			var err error
+			hung, pv := guard(60*time.Second, func() { err = e.plain.VerifC01AcceptUDP(ctx, c) })
+			_, damaged := e.h.adv.settle()
+			ci := map[string]any{"transport": "udp-loop", "reads": append([]string{}, replay...)}
+			if hung || pv != nil {
+				r.Violate("panic-udp", fmt.Sprintf("UDP loop: accept step hung=%v panic=%v", hung, pv), ci)
+				e.reset()
+
+				break
+			}
+			if damaged != "" {
+				r.Violate("concurrent-response-damaged-udp", "UDP loop: "+damaged, ci)
+			}
+			if it.kind == "dgram" {
+				var s sees
+				unpackAll(c.writes, &s)
+				rb.WriteString(" " + canonShort(s))
+				served++
+				eb := effective("udp", it.b)
+				treq := unpackOrNil(eb)
+				if len(eb) < 12 {
+					treq = nil
+				}
+				s.acceptErr = err
+				oracle(r, "udp", eb, treq, it.oc, true, s, e.h.calls.Load())
+			}
+			if err != nil {
+				alive = false
+				if !critSeen {
+					r.Violate("listener-exit-udp", fmt.Sprintf("UDP loop: the accept step returned %q although the socket is fine; the listener loop ends", err), ci)
+				}
+			}
+		}
+		lines = append(lines, sb.String())
+		reals = append(reals, fmt.Sprintf("%s %d%s", b2s(alive), served, rb.String()))
+		cis = append(cis, map[string]any{"transport": "udp-loop", "reads": replay})
+		r.Count("udploop:alive-" + b2s(alive))
+		r.Case(sb.String(), true)
+	}
+	for i, a := range m.Batch(lines) {
+		if strings.Join(strings.Fields(a), " ") != strings.Join(strings.Fields(reals[i]), " ") {
+			r.Disagree("udp-loop", fmt.Sprintf("model %q, implementation %q for %q", a, reals[i], lines[i]), cis[i])
+		}
+	}
+	r.ModelOps += len(lines)
+	r.Traces += len(lines)
+}
+
+// connCampaign: one TCP/DoT connection carrying several frames - accepted,
+// rejected, ignored, undecodable, unanswered - sent one after the other.  The
+// whole connection is compared with the model's serveConn: every frame is
+// answered as on its own, the first unanswered frame closes the connection and
+// nothing after it is served.
+func connCampaign(o *hlib.Opts, r *hlib.Result, m *hlib.Model, e *env) {
+	rng := o.Rand("conn")
+	n := 400
+	if o.Thorough() {
+		n = 30000
+	}
+	var lines, reals []string
+	var cis []any
+	ctx := context.Background()
+	dummy := hlib.NewResult("C01", o)
+	for i := 0; i < n; i++ {
+		t := pick(rng, []string{"tcp", "dot"})
+		k := 1 + rng.IntN(6)
+		ids := rng.Perm(65536)
+		var frames [][]byte
+		var sb strings.Builder
+		fmt.Fprintf(&sb, "conn %s 1", t)
+		byID := map[uint16]outcome{}
+		type sent struct {
+			req *dns.Msg
+			oc  outcome
+		}
+		var sents []sent
+		var replay []string
+		for j := 0; j < k; j++ {
+			b, _ := genWire(rng, dummy)
+			if len(b) >= 2 {
+				// Distinct ids, so that the scripted outcome is per frame.
+				binary.BigEndian.PutUint16(b, uint16(ids[j]))
+			}
+			oc := genOutcome(rng)
+			if oc.kind == "wrotefailed" || rng.IntN(3) > 0 {
+				oc = outcome{kind: "wrote", rcode: 0, n: 1 + rng.IntN(2)}
+			}
+			req := unpackOrNil(b)
+			if req != nil {
+				byID[req.Id] = oc
+			}
+			frames = append(frames, prefixed(b))
+			sb.WriteString(" ; " + frameArgs(b, req, oc))
+			sents = append(sents, sent{req: req, oc: oc})
+			replay = append(replay, hex.EncodeToString(b)+" "+oc.String())
+		}
+		c := newSeqConn(frames)
+		e.h.mu.Lock()
+		e.h.byID = byID
+		e.h.mu.Unlock()
+		e.h.adv.begin()
+		hung, pv := guard(60*time.Second, func() {
+			if t == "tcp" {
+				e.plain.VerifC01ServeTCPConn(ctx, c)
+			} else {
+				e.dot.VerifC01ServeTCPConn(ctx, c)
+			}
+		})
+		_, damaged := e.h.adv.settle()
+		e.h.mu.Lock()
+		e.h.byID = nil
+		e.h.mu.Unlock()
+		ci := map[string]any{"transport": t, "frames": replay}
+		if hung || pv != nil {
+			r.Violate("hang-"+t, fmt.Sprintf("%s connection: routine hung=%v panic=%v", t, hung, pv), ci)
+			e.reset()
+
+			continue
+		}
+		if damaged != "" {
+			r.Violate("concurrent-response-damaged-"+t, t+" connection: "+damaged, ci)
+		}
+		c.mu.Lock()
+		events := c.events
+		c.mu.Unlock()
+		var rb strings.Builder
+		for j, ev := range events {
+			var s sees
+			s.status = stOpen
+			if ev.msg == nil {
+				s.status = stClosed
+			} else {
+				splitPrefixed(ev.msg, &s)
+			}
+			rb.WriteString(" " + canonShort(s))
+			// Oracle: the j-th thing the server did belongs to the j-th frame.
+			if j >= len(sents) {
+				r.Violate("answer-count-"+t, fmt.Sprintf("%s connection: more server actions (%d) than frames (%d)", t, len(events), len(sents)), ci)
+
+				break
+			}
+			if s.garbage > 0 {
+				r.Violate("garbled-response-"+t, t+" connection: a frame that does not decode", ci)
+			}
+			for _, msg := range s.msgs {
+				req := sents[j].req
+				switch {
+				case req == nil:
+					r.Violate("undecodable-answered-"+t, t+" connection: undecodable frame answered", ci)
+				case msg.Id != req.Id:
+					r.Violate("foreign-id-"+t, fmt.Sprintf("%s connection: frame %d (id %d) answered with id %d", t, j, req.Id, msg.Id), ci)
+				case len(msg.Question) > 0 && (len(req.Question) == 0 || !sameQuestion(msg.Question[0], req.Question[0])):
+					r.Violate("foreign-question-"+t, fmt.Sprintf("%s connection: frame %d answered with question %v", t, j, msg.Question), ci)
+				case classify(req) == "ok" && sents[j].oc.kind == "wrote" &&
+					(msg.Rcode != sents[j].oc.rcode || rrStrings(msg.Answer) != rrStrings(answersFor(req, sents[j].oc.n))):
+					r.Violate("answer-differs-"+t, fmt.Sprintf("%s connection: frame %d: rcode %d records %q are not the pipeline's", t, j, msg.Rcode, rrStrings(msg.Answer)), ci)
+				}
+			}
+		}
+		lines = append(lines, sb.String())
+		reals = append(reals, fmt.Sprintf("%d%s", len(events), rb.String()))
+		cis = append(cis, ci)
+		r.Count(fmt.Sprintf("conn:%s-served-%d-of-%d", t, min(len(events), 3), min(k, 3)))
+		r.Case(sb.String(), true)
+	}
+	for i, a := range m.Batch(lines) {
+		if strings.Join(strings.Fields(a), " ") != strings.Join(strings.Fields(reals[i]), " ") {
+			r.Disagree("conn", fmt.Sprintf("model %q, implementation %q for %q", a, reals[i], lines[i]), cis[i])
+		}
+	}
+	r.ModelOps += len(lines)
+	r.Traces += len(lines)
+}
+
+// bufferCampaign is the worst concurrent schedule for the pooled byte buffers
+// (udpPool, tcpPool, DoQ reqPool, respPool), replayed deterministically: while a
+// request is in flight - inside its handler and inside its socket write - a
+// complete request of another client is served by the same server.  With one P
+// a sync.Pool hands that request the buffer that was put back last, so a buffer
+// that is released before its last use is overwritten by the other client's
+// bytes before the server reads it, and the client under test receives them.
+// Independently of what is overwritten, a request buffer that another read
+// receives while its request is still in flight is reported as such (UDP, TCP and
+// DoT hold it until the request is finished; DoQ releases it after Unpack).
+func bufferCampaign(o *hlib.Opts, r *hlib.Result, e *env) {
+	rng := o.Rand("buffers")
+	n := 60
+	if o.Thorough() {
+		n = 3000
+	}
+	prev := runtime.GOMAXPROCS(1)
+	defer runtime.GOMAXPROCS(prev)
+	defer func() { nest = nil }()
+	ctx := context.Background()
+	var bg sync.WaitGroup
+	for i := 0; i < n; i++ {
+		for _, t := range []string{"udp", "tcp", "dot", "doq"} {
+			msg := &dns.Msg{}
+			msg.SetQuestion(genName(rng), pick(rng, []uint16{dns.TypeA, dns.TypeAAAA, dns.TypeTXT}))
+			msg.Id = uint16(rng.IntN(65536))
+			if rng.IntN(2) == 0 {
+				msg.SetEdns0(1232, false)
+			}
+			b, err := msg.Pack()
+			if err != nil {
+				continue
+			}
+			req := unpackOrNil(b)
+			oc := outcome{kind: pick(rng, []string{"wrote", "wrote", "failed"}), n: 1 + rng.IntN(3)}
+			points := pick(rng, []string{"handler", "write", "handler,write"})
+			var outerBuf func() *byte
+			overlap, nestedBad, nestedRuns := "", "", 0
+			nest = func(point string) {
+				if !strings.Contains(points, point) {
+					return
+				}
+				nestedRuns++
+				nm := &dns.Msg{}
+				nm.SetQuestion(fmt.Sprintf("nested-%d.%s", nestedRuns, nestedSuffix), dns.TypeA)
+				nm.Id = uint16(0xc0de + nestedRuns)
+				nb, _ := nm.Pack()
+				var got sees
+				var nbuf *byte
+				switch t {
+				case "udp":
+					c := &fakePacketConn{in: nb, wok: true, wrote: make(chan struct{})}
+					bg.Add(1)
+					go func() {
+						defer bg.Done()
+						_ = e.plain.VerifC01AcceptUDP(ctx, c)
+					}()
+					select {
+					case <-c.wrote:
+					case <-time.After(5 * time.Second):
+					}
+					unpackAll(c.writes, &got)
+					nbuf = c.buf
+				case "tcp", "dot":
+					c := &fakeConn{in: bytes.NewReader(prefixed(nb)), wok: true}
+					if t == "tcp" {
+						e.plain.VerifC01ServeTCPConn(ctx, c)
+					} else {
+						e.dot.VerifC01ServeTCPConn(ctx, c)
+					}
+					splitPrefixed(c.out.Bytes(), &got)
+					nbuf = c.buf
+				default:
+					st := &fakeStream{in: bytes.NewReader(prefixed(nb))}
+					_ = e.doq.VerifC01ServeQUICStream(st, &fakeQUICConn{})
+					splitPrefixed(st.out.Bytes(), &got)
+				}
+				if len(got.msgs) != 1 || got.msgs[0].Id != nm.Id || len(got.msgs[0].Question) != 1 ||
+					got.msgs[0].Question[0].Name != nm.Question[0].Name || len(got.msgs[0].Answer) != 2 {
+					nestedBad = fmt.Sprintf("the concurrent client's query %s (id %d) was answered with %s", nm.Question[0].Name, nm.Id, canonSees(got, "-"))
+				}
+				if ob := outerBuf(); t != "doq" && ob != nil && nbuf == ob {
+					overlap = point
+				}
+			}
+			e.h.set(oc)
+			e.h.adv.begin()
+			var s sees
+			hung, pv := guard(60*time.Second, func() {
+				switch t {
+				case "udp":
+					c := &fakePacketConn{in: b, wok: true}
+					outerBuf = func() *byte { return c.buf }
+					s.acceptErr = e.plain.VerifC01AcceptUDP(ctx, c)
+					unpackAll(c.writes, &s)
+				case "tcp", "dot":
+					c := &fakeConn{in: bytes.NewReader(prefixed(b)), wok: true}
+					outerBuf = func() *byte { return c.buf }
+					if t == "tcp" {
+						e.plain.VerifC01ServeTCPConn(ctx, c)
+					} else {
+						e.dot.VerifC01ServeTCPConn(ctx, c)
+					}
+					s.status = stOpen
+					splitPrefixed(c.out.Bytes(), &s)
+				default:
+					st := &fakeStream{in: bytes.NewReader(prefixed(b))}
+					outerBuf = func() *byte { return nil }
+					_ = e.doq.VerifC01ServeQUICStream(st, &fakeQUICConn{})
+					s.status, s.fin = stOpen, st.closed
+					splitPrefixed(st.out.Bytes(), &s)
+				}
+			})
+			nest = nil
+			bg.Wait()
+			s.disposes, s.damaged = e.h.adv.settle()
+			s.hung, s.panicV = hung, pv
+			if hung {
+				e.reset()
+			}
+			ci := map[string]any{"transport": t, "wire_hex": hex.EncodeToString(b), "handler_outcome": oc.String(),
+				"concurrent_request_served_inside": points, "observed": canonSees(s, "-")}
+			if overlap != "" {
+				r.Violate("request-buffer-recycled-in-flight-"+t, fmt.Sprintf("%s: while this request was still in flight (inside its %s) the server read another client's message into the very buffer that holds this request: "+
+					"the buffer went back to its pool before the request was finished, so a concurrent read can overwrite the query before or while it is parsed", t, overlap), ci)
+			}
+			if nestedBad != "" {
+				r.Violate("concurrent-request-answer-damaged-"+t, t+": "+nestedBad, ci)
+			}
+			// The request under test must be answered as if it were alone.
+			_ = oracle(r, t, b, req, oc, true, s, e.h.calls.Load())
+			r.Count("buffers:" + t + "-" + points)
+			r.Case(fmt.Sprintf("buffers %s %x %s %s", t, b, oc, points), true)
+			r.Traces++
+		}
+	}
+	r.Notes = append(r.Notes, "byte-buffer adversary: a concurrent client's request served inside the handler and inside the socket write of every request (UDP, TCP, DoT, DoQ) with GOMAXPROCS(1)")
+}
+
 // liveCampaign: real UDP and TCP listeners must survive the malformed stream.
 func liveCampaign(o *hlib.Opts, r *hlib.Result) {
 	rng := o.Rand("live")
@@ -1931,6 +2586,13 @@ func main() {
 		"that is also the servers' Disposer, and after every Dispose two concurrent requests clone their own responses out of the " +
 		"pools (worst schedule), so a response recycled before its last use reaches the client with a foreign id/question/records " +
 		"and a response recycled twice or written to after disposal damages the concurrent responses, which are checked; " +
+		"the model is given the client's bytes and decides itself what reaches Unpack (UDP short/cut datagrams, DoQ framing); its own parse of the header and " +
+		"the first question is compared with miekg's Unpack on every line (the UnpackOK contract of the wire-level theorems); " +
+		"whole TCP/DoT connections (frames sent one after the other, mixed accepted/rejected/ignored/undecodable/unanswered) and whole UDP listener loops " +
+		"(datagrams, short datagrams, timeouts, critical errors) are compared with serveConn/udpLoop, and no client input may make the accept step return an error; " +
+		"DoQ streams must be finished by the server; the JSON API is driven in both encodings (JSON and ct=application/dns-message); " +
+		"byte-buffer adversary: with GOMAXPROCS(1) a concurrent client's request is served inside the handler and inside the socket write of the request under test, " +
+		"so a pooled request/response buffer released before its last use is overwritten (foreign id/question/garbled frame) or seen recycled in flight; " +
 		"a case is non-trivial unless it is a well-formed accepted query answered normally; distinct = distinct (wire, outcome)"
 	m := hlib.StartModel(o.Model, "C01")
 	defer m.Close()
@@ -1944,6 +2606,9 @@ func main() {
 	jsonCampaign(o, r, m, e)
 	quicFrameCampaign(o, r, m, e)
 	pipelineCampaign(o, r, e)
+	connCampaign(o, r, m, e)
+	udpLoopCampaign(o, r, m, e)
+	bufferCampaign(o, r, e)
 	truncationCampaign(o, r, e)
 	liveCampaign(o, r)
 
